@@ -966,6 +966,87 @@ def r15_18(ctx, rep):
         raise MechanismMissing(R, "the skip of aliases handled in an earlier pass was not found in the alias loop")
 
 
+@SPEC.rule(
+    "R15.19",
+    "an expanded array is gone from every equation (R18.5 evaluated for this property): the old symbol and its replacement are recorded for "
+    "every variable _expand_vectors expands — a one-element array left out of the substitution is a free symbol of the residual functions, "
+    "although the unknowns and equations still pair up",
+)
+def r15_19(ctx, rep):
+    from ..engine import run_as
+    from .c18 import r18_5
+    run_as(r18_5, "R15.19", ctx, rep)
+
+
+@SPEC.rule(
+    "R15.20",
+    "every eliminated variable is substituted everywhere: in each pass of _simplify_once the two lists handed to ca.substitute are only "
+    "initialised and appended to — never filtered or re-bound in between (`only the aliases still used in the remaining equations`: an alias "
+    "that only an initial equation mentions stays a free symbol of the initial residual)",
+)
+def r15_20(ctx, rep):
+    R = "R15.20"
+    fn = simplify_fn(ctx, R)
+    site = MODEL + ":Model._simplify_once"
+    n = 0
+    for name, blk in option_blocks(fn).items():
+        subs = substitutions(blk.body)
+        lists = {s_["symbols"] for s_ in subs} | {s_["values"] for s_ in subs}
+        for v in sorted(x for x in lists if x.isidentifier()):
+            binds = [st for b in blk.body for st in ast.walk(b) if isinstance(st, (ast.Assign, ast.AugAssign)) and any(
+                isinstance(x, ast.Name) and x.id == v and isinstance(x.ctx, ast.Store)
+                for t in (st.targets if isinstance(st, ast.Assign) else [st.target]) for x in ast.walk(t))]
+            if not binds:
+                continue
+            n += 1
+            # one initialisation per pass (possibly inside the pass's outer loop), everything else are appends
+            fresh = [b for b in binds if isinstance(b, ast.Assign) and all(isinstance(e, (ast.List, ast.Tuple, ast.Call)) and (
+                (isinstance(e, (ast.List, ast.Tuple)) and all(isinstance(x, (ast.List,)) and not x.elts for x in (e.elts if isinstance(e, ast.Tuple) else [e]))) or
+                (isinstance(e, ast.List) and not e.elts) or isinstance(e, ast.Call)) for e in [b.value])]
+            def shrinking(b):
+                v_ = b.value
+                if isinstance(v_, (ast.ListComp, ast.GeneratorExp)) and any(g.ifs for g in v_.generators):
+                    return True
+                if isinstance(v_, ast.Call) and (call_name(v_) or "") in ("filter", "itertools.compress", "list") and any(
+                        isinstance(x, ast.Call) and (call_name(x) or "") in ("filter", "itertools.compress") for x in ast.walk(v_)):
+                    return True
+                return isinstance(v_, ast.Subscript) and isinstance(v_.slice, ast.Slice)
+
+            rebinds = [b for b in binds if b not in fresh and shrinking(b)]
+            rep.ob(R, site, "pass %s: list `%s` is never filtered" % (name, v), not rebinds,
+                   "`%s` can drop entries from the list between its filling and the substitution" % (norm(rebinds[0])[:70] if rebinds else ""))
+    if n < 4:
+        raise MechanismMissing(R, "fewer than 4 substitution lists found in the passes of _simplify_once")
+
+
+@SPEC.rule(
+    "R15.21",
+    "an alias equation relates two whole variables: where _detect_alias recognises an alias by substitution (`ca.substitute(eq, a, b).is_zero()`), "
+    "the test is made only for an equation that has as many elements as each of the two variables — `y[1] = x[1]` between elements of two "
+    "unexpanded vectors passes the substitution test too, the whole vector y is then eliminated for one scalar equation and the system is "
+    "no longer square",
+)
+def r15_21(ctx, rep):
+    from ..cfg import CFG
+    R = "R15.21"
+    fn = simplify_fn(ctx, R)
+    inner = [f for f in ast.walk(fn) if isinstance(f, ast.FunctionDef) and f.name == "_detect_alias"]
+    if not inner:
+        raise MechanismMissing(R, "_detect_alias not found in _simplify_once")
+    f = inner[0]
+    site = MODEL + ":Model._simplify_once._detect_alias"
+    cfg = CFG(f, R)
+    tests = [x for x in cfg.nodes if x.kind == "test" and any(isinstance(c, ast.Call) and (call_name(c) or "").endswith("substitute") for c in ast.walk(x.ast))]
+    if not tests:
+        raise MechanismMissing(R, "the substitution-based alias test was not found in _detect_alias")
+    for k, t in enumerate(tests):
+        guards = cfg.dominated_by(t.id, lambda x: x.kind == "assume" and any(
+            isinstance(c, ast.Call) and isinstance(c.func, ast.Attribute) and c.func.attr in ("numel", "size1", "size2", "size", "shape") for c in ast.walk(x.ast))
+            or (x.kind == "assume" and any(isinstance(a, ast.Attribute) and a.attr == "shape" for a in ast.walk(x.ast))))
+        rep.ob(R, site, "substitution test #%d is made for whole-variable equations only" % (k + 1), bool(guards),
+               "`%s` is not preceded by a comparison of the equation's size with the variables' sizes" % norm(t.ast)[:70])
+
+
 # -- seeded variants ---------------------------------------------------------
 from ._mut import delete_stmt_where, replace_in_func, replace_stmt_where  # noqa: E402
 
